@@ -225,3 +225,34 @@ HEAP_HEADERS["C02"] = ("From CppUVerif Require Import lib.CSem lib.CMem lib.CHea
                        "(* translated by tools/cxx2heap.py: the list of registered tests (UtestShell::next_, TestRegistry::tests_) and the pointer array "
                        "that shuffles and reverses it; PlatformSpecificRand() takes the next value of the ghost stream rands; virtual addTest / "
                        "countTests are the UtestShell definitions (no class of the repository overrides them) *)\n")
+
+# ------------------------------------------------------------------ C07: the leak plugin's per-test actions and the detector functions they call
+MLP = "src/CppUTest/MemoryLeakWarningPlugin.cpp"
+MLPH = "include/CppUTest/MemoryLeakWarningPlugin.h"
+_G07 = [["evs", "list pev"], ["counts", "list Z"], ["overloaded", "Z"]]
+_DET = {n: {"fn": "src_det_" + n, "method": True, "writes": True} for n in
+        ["startChecking", "stopChecking", "enable", "disable", "markCheckingPeriodLeaksAsNonCheckingPeriod", "clearAllAccounting"]}
+_DET["totalMemoryLeaks"] = {"fn": "src_det_totalMemoryLeaks", "method": True}
+_C07T = {n: {"fn": "src_table_" + n, "method": True, "noghost": True} for n in ["getTotalLeaks", "getFirstLeak", "getNextLeak"]}
+_C07T["clearAllAccounting"] = {"fn": "src_table_clearAllAccounting", "method": True, "writes": True, "noghost": True}
+_C07D = dict(_C07T)
+_C07D["clear"] = {"event": "PClearBuffer"}                       # outputBuffer_.clear()
+_C07P = dict(_DET)
+_C07P.update({"getFailureCount": {"pop": "counts"}, "areNewDeleteOverloaded": "overloaded",
+              "report": {"event": "PReport {0}", "args": True, "value": "1"},    # the text of the report: an opaque non-null address
+              "TestFailure": {"ctor_event": "PFailure", "eval_args": [1]}, "addFailure": {"ignore": True},
+              "print": {"event": "PWarn"}, "StringFromFormat": {"ignore": True}, "asCharString": {"ignore": True}})
+HEAP_RECORDS["C07"] = HEAP_RECORDS["C04"] + [["MemoryLeakDetector", MLD], ["MemoryLeakWarningPlugin", MLP, "own"]]
+HEAP_GROUPS["C07"] = (
+    [dict(file=MLD, name="MemoryLeakDetector::" + n, coq="src_det_" + n, calls=_C07D, enums=["MemLeakPeriod"], ghosts=_G07,
+          extern=["src_table_getTotalLeaks", "src_table_getFirstLeak", "src_table_getNextLeak", "src_table_clearAllAccounting"]) for n in
+     ["startChecking", "stopChecking", "enable", "disable", "totalMemoryLeaks", "markCheckingPeriodLeaksAsNonCheckingPeriod", "clearAllAccounting"]] +
+    [dict(file=MLP, name="MemoryLeakWarningPlugin::" + n, coq="src_plugin_" + n, calls=_C07P, enums=["MemLeakPeriod"], ghosts=_G07, string_literals={'""': "0"}) for n in
+     ["ignoreAllLeaksInTest", "expectLeaksInTest", "preTestAction", "postTestAction", "FinalReport"]])
+HEAP_HEADERS["C07"] = ("From CppUVerif Require Import lib.CSem lib.CMem lib.CHeap gen.Gen_HeapC04.\nLocal Open Scope Z_scope.\n"
+                       "(* translated by tools/cxx2heap.py: the per-test actions of MemoryLeakWarningPlugin and the MemoryLeakDetector member functions they "
+                       "call; the table functions are the translated ones of gen/Gen_HeapC04.v; result.getFailureCount() takes the next value of the "
+                       "ghost stream counts; areNewDeleteOverloaded() is the ghost constant overloaded; report(period) is the ghost event PReport period "
+                       "and yields an opaque non-null text address; constructing the TestFailure that is handed to result.addFailure is the ghost event "
+                       "PFailure; outputBuffer_ is one opaque cell and its clear() the event PClearBuffer *)\n"
+                       "Inductive pev := PClearBuffer | PReport (period : Z) | PFailure | PWarn.\n")
